@@ -1,6 +1,6 @@
 (* C11 — aggregation output bypasses the pipeline, cannot loop; drop-raw is exact. *)
 From CRNG Require Import Base.ListX Base.Bytes Lib.Regex Model.Fields Model.Validate Model.Matcher Model.Rewriter
-  Model.Hashing Model.Table Model.Aggregator Proofs.TableProofs Proofs.DropRawProofs Proofs.AggregatorProofs Proofs.AggregatorBound.
+  Model.Hashing Model.Table Model.Aggregator Proofs.TableProofs Proofs.RouteUpdate Proofs.DropRawProofs Proofs.AggregatorProofs Proofs.AggregatorBound.
 Local Open Scope nat_scope.
 
 (* aggregate output is looked at by the routes only: it goes to every route whose filter accepts its
@@ -14,6 +14,17 @@ Theorem C11_bypass :
     (o_unroutable o = true <-> accepting (route_accepts search (name_of buf)) rs 0 = []).
 Proof. exact dispatch_aggregate_routes. Qed.
 Print Assumptions C11_bypass.
+
+(* a route filter changed at run time (modRoute: route ri gets the filter m, in place) decides the very next aggregate line:
+   route j receives it iff its CURRENT filter accepts the name - the new filter for j = ri, its own unchanged filter otherwise -
+   whatever was routed before the change (the aggregate path keeps no memory of earlier verdicts) *)
+Theorem C11_aggregate_routing_follows_route_updates :
+  forall (search : rx -> bytes -> bool) rs ri m buf j,
+    In (j, buf) (o_routes (dispatch_aggregate search (set_nth_route rs ri m) buf)) <->
+    exists r, nth_error rs j = Some r /\
+              mmatch search (if Nat.eqb j ri then m else r_matcher r) (name_of buf) = true.
+Proof. exact aggregate_routing_follows_update. Qed.
+Print Assumptions C11_aggregate_routing_follows_route_updates.
 
 (* no loop, no amplification: whatever the rules (self-matching, chained), once raw input stops an
    aggregator emits at most the lines its open buckets hold, however many ticks follow *)
